@@ -79,7 +79,7 @@ PIdx(p) == p[2]
 PName(p) == p[3]
 
 \* ---- generic structs (a fixed table; the harness declares exactly these) -------------
-GStructNames == {"G1", "GQ", "GA", "GN", "GP", "GC", "GF"}
+GStructNames == {"G1", "GQ", "GA", "GN", "GP", "GC", "GD", "GF"}
 GStruct(name) ==
     CASE name = "G1" -> [params |-> <<TP(0, "T", FALSE, FALSE)>>,           \* x: T
                          fields |-> <<BV(0, "T", FALSE, FALSE)>>]
@@ -93,6 +93,8 @@ GStruct(name) ==
                          fields |-> <<TInt>>]
       [] name = "GC" -> [params |-> <<TP(0, "T", TRUE, FALSE)>>,            \* T: Copy; x: T
                          fields |-> <<BV(0, "T", TRUE, FALSE)>>]
+      [] name = "GD" -> [params |-> <<TP(0, "T", FALSE, TRUE)>>,            \* T: Drop; x: T
+                         fields |-> <<BV(0, "T", FALSE, TRUE)>>]
       [] name = "GF" -> [params |-> <<TP(0, "T", FALSE, FALSE)>>,           \* f: Callable[[T], T]
                          fields |-> <<TFn(<<BV(0, "T", FALSE, FALSE)>>, BV(0, "T", FALSE, FALSE))>>]
 
@@ -316,9 +318,9 @@ Phantoms(t) ==
     CASE t[1] = "tup" -> UNION {Phantoms(t[3][k]) : k \in DOMAIN t[3]}
       [] t[1] \in {"arr", "farr", "opt"} -> Phantoms(t[2])
       [] t[1] = "rec" -> UNION {Phantoms(t[2][k]) : k \in DOMAIN t[2]}
-      [] t[1] = "st" ->
-            (IF ~Copyable(t) /\ HugrRepCopyable(t) THEN {t[2]} ELSE {})
-            \cup UNION {IF t[3][k][1] = "T" THEN Phantoms(t[3][k][2]) ELSE {} : k \in DOMAIN t[3]}
+      [] t[1] = "st" ->            \* blame the innermost struct only
+            LET inner == UNION {IF t[3][k][1] = "T" THEN Phantoms(t[3][k][2]) ELSE {} : k \in DOMAIN t[3]}
+            IN IF inner = {} /\ ~Copyable(t) /\ HugrRepCopyable(t) THEN {t[2]} ELSE inner
       [] OTHER -> {}
 
 \* TypeParam.check_arg: an argument must satisfy the bounds of its parameter
